@@ -32,7 +32,15 @@ def check(run):
     kinds = ["own0", "own0-prefixed", "other", "empty", "prefix-only", "not-b64", "short", "nopad", "crlf", "own-last", "own-mid", "garbage-after", "urlsafe", "hex", "own0", "empty"]
     n = 120 if run.tier == "quick" else 1500
     calls = [{"srv": rng.randrange(nsrv), "kind": (kinds[k % len(kinds)] if k < 2 * len(kinds) else rng.choice(kinds))} for k in range(n)]
-    inputs = [{"i": k, "srv": c["srv"], "kind": c["kind"]} for k, c in enumerate(calls)]
+    # directed sequences on ONE server: what an earlier connection established (a TLS session, a cached client) must not carry over
+    for sv in range(nsrv):
+        calls += [{"srv": sv, "kind": k} for k in ("other", "own0", "other", "own0-prefixed", "empty", "other", "not-b64", "other")]
+    # overlapping calls: a second call runs to completion while the first is between configuring its client and connecting
+    for sv in range(nsrv):
+        for outer, inner in (("other", "own0"), ("empty", "own0"), ("own0", "other"), ("own0", "empty"), ("other", "other")):
+            calls.append({"srv": sv, "kind": outer, "nested": {"srv": sv, "kind": inner}})
+            calls.append({"srv": sv, "kind": outer, "nested": {"srv": (sv + 1) % nsrv, "kind": "own0"}})
+    inputs = [dict({"i": k, "srv": c["srv"], "kind": c["kind"]}, **({"nested": dict(c["nested"], i=100000 + k)} if "nested" in c else {})) for k, c in enumerate(calls)]
     res, err = vlib.run_drv(drv, "pin", [header] + inputs, args=[d], env=env, timeout=120)
     if err or not res or len(res) != len(inputs) + 1:
         run.oblige("pin driver ran all calls", False, "%s (%d results)" % (err, len(res or [])))
@@ -40,6 +48,11 @@ def check(run):
     spkis = res[0]["spkis"]
     run.oblige("process-wide HTTP defaults untouched at start", res[0].get("global_before", "") == "", res[0].get("global_before", ""))
     rs = res[1:]
+    # a nested call is a call of its own
+    for i, r in list(zip(inputs, rs)):
+        if "nested" in i and r.get("nested"):
+            inputs.append({"i": i["nested"]["i"], "srv": i["nested"]["srv"], "kind": i["nested"]["kind"], "ran_inside_call": i["i"]})
+            rs.append(r["nested"])
 
     def term(i, r):
         ch = spkis[i["srv"]]
@@ -53,6 +66,9 @@ def check(run):
                       "leaf issued by a CA the process trusts), mixing: the server's own pin with and without sha256//, the pin of the last / a middle "
                       "certificate of the chain, another server's pin, no fingerprint, the bare prefix, non-base64, 31 bytes, missing padding, embedded "
                       "CR/LF, garbage after the padding, URL-safe alphabet, hex; SHA-256 and base64 of the presented keys are recomputed inside Coq; "
+                      "directed sequences on each server (wrong pin after a right one, no pin after a pinned call); overlapping calls (a second call, "
+                      "with another pin or none, to the same or another server, runs to completion while the first is between configuring its client "
+                      "and connecting - each is judged on its own configuration); "
                       "after every call http.DefaultClient and http.DefaultTransport are compared with their initial state" % nsrv,
                       key_fn=lambda i: "%d-%s-%d" % (i["srv"], i["kind"], i["i"]))
     run.assumptions += ["the TLS stack calls VerifyConnection before any request byte is written; the peer's certificates are as crypto/tls reports them",
